@@ -79,6 +79,16 @@ def pairing(db, ctx):
                 got = {k: flag_names(v) for k, v in am.items()}
                 ok = got.get("A") == want_flag["A"] and got.get("B") == want_flag["B"] and all(v == set() for k, v in got.items() if k not in ("A", "B"))
         ctx.ob("%s|mode->flag" % nm, ok, "%s maps %s (must be A->SPLIT_A, B->SPLIT_B, otherwise empty)" % (nm, {k: sorted(v) for k, v in got.items()}), fn=f)
+        # which mode is matched: set_mode must look at the NEW mode (its parameter), set_subset at the tokenizer's current mode
+        scr = None
+        for m in ms:
+            am = _arm_map(m)
+            if "A" in am and "B" in am:
+                scr = render(peel(m["scrut"]))
+        want_scr = "mode" if nm == "set_mode" else "self.mode"
+        ctx.ob("%s|matches-%s" % (nm, "new-mode" if nm == "set_mode" else "current-mode"), scr == want_scr,
+               "%s matches on `%s` (must be `%s`: %s)" % (nm, scr, want_scr, "the mode being set — matching the old mode adds the old mode's split list and the new mode's "
+                                                         "units are never loaded under a restricted field subset" if nm == "set_mode" else "the tokenizer's mode"), fn=f)
     want_fld = {"A": "a_unit_split", "B": "b_unit_split"}
     for nm in ("num_splits", "split"):
         f = db.one(nm, "ResultNode")
@@ -207,3 +217,11 @@ def shared_input(db, ctx):
     ctx.ob("split-args", ok2, "node.split(%s)" % (", ".join(render(a) for a in call_args(spc[0])[1:]) if spc else None), fn=f)
     node_src = any(n.get("k") == "Let" and n["pat"].get("name") == "node" and "self.node(index)" in render(n["init"]) for n, _ in walk(f.hir))
     ctx.ob("node=self.node(index)", node_src, "the split node is self.node(index): %s" % node_src, fn=f)
+
+
+@rule("C09.fixups", "split references of user-dictionary words are re-stamped under the flag of the list they belong to (re-evaluation of "
+                    "C11.fixups: a B-split list fixed up under the A flag, or vice versa, resolves units in the wrong dictionary)")
+def fixups(db, ctx):
+    from . import C11
+    C11.fixups(db, ctx)
+    ctx.floor(4)
